@@ -9,6 +9,7 @@ pub mod git;
 pub mod out;
 pub mod fmt;
 pub mod run;
+pub mod strict;
 
 pub fn dispatch(case: &Value, dir: &Path) -> Value {
     match case.get("op").and_then(|x| x.as_str()) {
@@ -22,6 +23,7 @@ pub fn dispatch(case: &Value, dir: &Path) -> Value {
         Some("bufw") => out::op_bufw(case),
         Some("wfail") => out::op_wfail(case, dir),
         Some("fmt") => fmt::op_fmt(case, dir),
+        Some("strict") => strict::op_strict(case, dir),
         Some(op) => json!({"r": "BADCASE", "msg": format!("unknown op {op}")}),
         None => json!({"r": "BADCASE", "msg": "no op"}),
     }
